@@ -133,6 +133,9 @@ func BuildLib(c APICase) *smf.SMF {
 		s.TimeFormat = TimeFormatOf(c.Division)
 	}
 	s.NoRunningStatus = c.NoRunningStatus
+	if (len(c.Tracks)+int(c.Division))%2 == 1 {
+		s.Logger = nopLogger{} // a logger must not change what is written
+	}
 	if c.ToggleRS && c.WriteAfter > 0 {
 		s.NoRunningStatus = !c.NoRunningStatus
 	}
@@ -418,3 +421,7 @@ func APIClasses(c APICase) (classes []string, nontrivial bool) {
 }
 
 func (c APICase) String() string { return fmt.Sprintf("%+v", ModelOf(c)) }
+
+type nopLogger struct{}
+
+func (nopLogger) Printf(format string, vals ...interface{}) {}
